@@ -220,7 +220,9 @@ func c01WriteChunk(c *Ctx) {
 				return []map[int]Val{{2: {N: NNil, Class: ClsNil, Sym: "selfseed-ok"}}, {2: {N: NNon, Class: ClsOther}}}
 			case "(*os.File).WriteAt":
 				a := call.Call.Args
-				dataOK := onlyOrigins(a[1], func(o string) bool { return o == "call:(*desync.Chunk).Data#0" })
+				// (a fetching helper contributes its nil failure results, which the error check excludes)
+				dataOK := hasOrigin(a[1], func(o string) bool { return o == "call:(*desync.Chunk).Data#0" }) &&
+					onlyOrigins(a[1], func(o string) bool { return o == "call:(*desync.Chunk).Data#0" || o == "const:nil" })
 				offOK := hasOrigin(a[2], func(o string) bool { return o == "field:IndexChunk.Start" })
 				sym := "store-write-ok"
 				if !dataOK || !offOK {
